@@ -281,6 +281,30 @@ def check(c):
         exp_me = X.market_worst(pr, c["n_active"], c["n_winners"])
         if abs(me - exp_me) > tol(all_ps + [npos]) * max(1, len(c["sels"])):
             raise Violation("new-order-market", (), "market exposure with new_order %s, as-if-added %s" % (me, exp_me), c)
+        # a prospective order that has not been sent: never submitted before (status None) or refused by a control on
+        # an earlier attempt (status VIOLATION) - it counts in full with its whole size / liability open
+        fresh = build_order(strat, mid, s["sel"], s["hc"], nspec, ladder, client, live)
+        refused_before = bool(c["new"].get("resub")) or c["new"]["status"] == "VIOLATION"
+        if refused_before:
+            fresh.violation("refused on an earlier attempt")
+            classes.add("prospective-order-refused-before")
+        if nspec["type"] == "LIMIT":
+            fpos = {"side": nspec["side"], "kind": "LIMIT", "fills": [], "open": (nspec["price"], nspec["size"]), "line": ladder == "LINE_RANGE"}
+        else:
+            fpos = {"side": nspec["side"], "kind": "SP", "liability": nspec["liability"]}
+        ps = sel_positions(si, extra=fpos)
+        exp = X.selection_worst(ps)
+        got = blotter.get_exposures(strat, lookup, new_order=fresh)
+        if abs(got["worst_possible_profit_on_win"] - exp["win"]) > tol(ps) or abs(got["worst_possible_profit_on_lose"] - exp["lose"]) > tol(ps):
+            raise Violation("new-order", (nspec["type"], "unsent", "refused-before" if refused_before else "never-submitted"),
+                            "prospective order %s: got %s, as-if-added %s" % (nspec, got, exp), c)
+        pr = list(per_runner)
+        pr[si] = (exp["win"], exp["lose"])
+        me = blotter.market_exposure(strat, mb, new_order=fresh)
+        exp_me = X.market_worst(pr, c["n_active"], c["n_winners"])
+        if abs(me - exp_me) > tol(all_ps + [fpos]) * max(1, len(c["sels"])):
+            raise Violation("new-order-market", ("unsent", "refused-before" if refused_before else "never-submitted"),
+                            "market exposure with the prospective order %s, as-if-added %s" % (me, exp_me), c)
     return nontrivial, classes
 
 
